@@ -78,7 +78,9 @@ fn main() {
             let scratch = out_dir.join(format!("scratch-{}-{}", suite, std::process::id()));
             std::fs::create_dir_all(&scratch).unwrap();
             // panics are expected outcomes in several suites: keep stderr quiet, the answer line records them
-            std::panic::set_hook(Box::new(|_| {}));
+            if std::env::var("VERIF_PANIC").is_err() {
+                std::panic::set_hook(Box::new(|_| {}));
+            }
             let mut out = out::Out::new(&out_dir, &suite);
             match suite.as_str() {
                 "T" => suite_t::exec(&lines, &mut out, &scratch),
